@@ -58,6 +58,13 @@ def texprs(draw, earlier, depth=2):
     if k == 'dict':
         return ['dict', draw(texprs(earlier, depth - 1))]
     if k == 'union':
+        overl = [c for c in earlier if c['kind'] in ('enum', 'ustr', 'ystr')]
+        if overl and draw(st.integers(0, 2)) == 0:
+            # a scalar first and a class that matches the same nodes later
+            # (Union[str, StringLike], Union[bool, EnumWithTrue]): ambiguous documents
+            c = draw(st.sampled_from(overl))
+            first = 'bool' if c['kind'] == 'enum' and draw(st.booleans()) else 'str'
+            return ['union', first, ['cls', c['name']]]
         n = draw(st.integers(2, 3))
         pool = ['int', 'str', 'float', 'bool'] + [['cls', c['name']] for c in earlier]
         ms = []
@@ -137,6 +144,8 @@ def class_specs(draw, name, earlier, allow_hooks=True):
                 c['swe'] = {'from': params[0]['n'], 'to': 'alias_' + params[0]['n']}
         elif h == 2:
             c['sav'] = 'raise'
+        elif h == 5 and params:
+            c['sav'] = {'rebuild': draw(st.sampled_from([q['n'] for q in params]))}
         elif h in (3, 4) and (any(p['d'] is not None for p in params) or c['base']):
             c['swe'] = 'defaults'
         c['rec'] = draw(st.integers(0, 7)) == 0
@@ -437,6 +446,10 @@ def root_types(spec):
         out.append(['dict', ['cls', names[-1]]])
         if len(names) > 1:
             out.append(['union', ['cls', names[0]], ['cls', names[1]]])
+    for c in spec['classes']:
+        if c.get('registered', True) and c['kind'] in ('enum', 'ustr', 'ystr'):
+            out.append(['union', 'str', ['cls', c['name']]])
+            break
     out.append('any')
     out.append(['dict', 'int'])
     return out
